@@ -1,5 +1,6 @@
 (* Check/RetrieverCheck.v — correspondence check for Model/Retriever.v: the harness writes the DA it scripted
-   (per height the POSTS: headers, junk kinds, and for SignedData blobs the tx list on the wire, Metadata present?,
+   (per height the POSTS: for SignedHeader blobs who signed and over which SignaturePayloadProvider's payload — whether
+   the node, built with provider rc_scheme, admits them is computed by the model —, junk kinds, and for SignedData blobs the tx list on the wire, Metadata present?,
    signer, the tx list the signature covers — their class is computed by the model —, and the outcome scripts), the node configuration, the history it drove the real Manager
    through, and what it observed per item (cursor, DA calls, events taken from headerInCh / dataInCh with the tx list
    every data event carried, result class) plus the final DA-included marks; [mismatches] lists the cases on which the model disagrees. *)
@@ -17,7 +18,11 @@ Record obs := { o_cursor : N;                 (* m.daHeight after the item *)
                 o_res : N }.                  (* IProc: 0 nil, 1 from-the-future error, 2 other error, 3 panic;
                                                  ISignal: 3 if the loop goroutine is dead after the item, else 0 *)
 
-Record rcase := { rc_cfg : cfg; rc_da : list hpost;   (* the DA as POSTED: Model/Retriever.v hpost *)
+Record rcase := { rc_cfg : cfg;
+                  rc_scheme : scheme;         (* the SignaturePayloadProvider the node was built with (ManagerOptions), 0 = default *)
+                  rc_da : list xhpost;        (* the DA as POSTED: Model/Retriever.v xhpost — header blobs with signer and the
+                                                 provider whose payload the signature covers; whether the node admits them is
+                                                 COMPUTED by the model (view_hd, the node's provider installed: VConfigured) *)
                    rc_hist : list item; rc_obs : list obs;
                   rc_marks : list (bool * N * option N) }.   (* (is data, id, GetDAIncludedHeight) at the end *)
 
@@ -96,7 +101,8 @@ Fixpoint obs_diff (i : N) (m o : list obs) : list N :=
   end.
 
 Definition check_case (c : rcase) : list N :=
-  let '(os, ms) := run_obs (rc_cfg c) (rc_da c) (init (rc_cfg c) (da_of DCopyAll (rc_da c))) (rc_hist c) in
+  let pda := pda_of VConfigured (rc_scheme c) (rc_da c) in
+  let '(os, ms) := run_obs (rc_cfg c) pda (init (rc_cfg c) (da_of DCopyAll pda)) (rc_hist c) in
   obs_diff 0 os (rc_obs c) ++
   (if forallb (fun e => let '(isd, id, v) := e in optN_eqb (last_mark isd id ms None) v) (rc_marks c) then [] else [7]).
 
@@ -112,21 +118,24 @@ Definition mismatches := mismatches_from 0.
 
 (* compact constructors for the generated cases *)
 Definition E (nf fut : bool) : daerr := {| e_nf := nf; e_fut := fut |}.
-Definition HI (posts : list post) (outs : list outcome) : hpost := {| hp_posts := posts; hp_outs := outs |}.
+Definition HI (posts : list xpost) (outs : list outcome) : xhpost := {| xp_posts := posts; xp_outs := outs |}.
 Definition OB (cur : N) (calls : list call) (hev dev : list (N * N)) (dtx : list (list tx)) (res : N) : obs :=
   {| o_cursor := cur; o_calls := calls; o_hev := hev; o_dev := dev; o_dtx := dtx; o_res := res |}.
 (* n junk blobs of kind k (bulk filler for heights with more than batch_size ids) *)
-Definition JN (k : N) (n : nat) : list post := repeat (PJunk k) n.
-(* a proposer-signed header *)
-Definition PH (id : N) : list post := [PHeader id].
+Definition JN (k : N) (n : nat) : list xpost := repeat (XPost (PJunk k)) n.
+(* a SignedHeader blob built by the harness with real keys: signed with the proposer's key over the payload that
+   provider [s] defines for it (the chain's provider: genuine; another one: not valid on this chain) *)
+Definition PH (id : N) (s : scheme) : list xpost := [XHeader {| hd_id := id; hd_signer := true; hd_sigfor := Some s |}].
+(* the same signed with a foreign key under the proposer's address (forgery) *)
+Definition PHF (id : N) (s : scheme) : list xpost := [XHeader {| hd_id := id; hd_signer := false; hd_sigfor := Some s |}].
 (* a SignedData blob built by the harness with real keys: the signature is made over exactly the posted
    transactions [txs]; meta = Metadata present; signer = signed with the proposer's key (false: a foreign key
    under the proposer's address) *)
-Definition PD (id : N) (meta signer : bool) (txs : list tx) : list post :=
-  [PSigned {| sp_id := id; sp_wire := txs; sp_meta := meta; sp_signer := signer; sp_sigfor := Some txs |}].
+Definition PD (id : N) (meta signer : bool) (txs : list tx) : list xpost :=
+  [XPost (PSigned {| sp_id := id; sp_wire := txs; sp_meta := meta; sp_signer := signer; sp_sigfor := Some txs |})].
 (* the proposer's signature over [sigtxs] (Metadata present), but [txs] on the wire *)
-Definition PX (id : N) (txs sigtxs : list tx) : list post :=
-  [PSigned {| sp_id := id; sp_wire := txs; sp_meta := true; sp_signer := true; sp_sigfor := Some sigtxs |}].
+Definition PX (id : N) (txs sigtxs : list tx) : list xpost :=
+  [XPost (PSigned {| sp_id := id; sp_wire := txs; sp_meta := true; sp_signer := true; sp_sigfor := Some sigtxs |})].
 
 (* ==== ticks during catch-up: correspondence check for the two-channel loop (Model/Retriever.v, lturn) ====
    The harness wakes the real RetrieveLoop with one signal while it is quiescent, and its DA double sends
@@ -138,7 +147,7 @@ Definition PX (id : N) (txs sigtxs : list tx) : list post :=
    served, token re-armed after every passed height — explains exactly the calls that were seen. *)
 Record tseg := { ts_seen : list (bool * bool);  (* per GetIDs call: (len(retrieveCh) = 1 on entry, tick sent during the call) *)
                  ts_obs : obs }.                (* at quiescence: cursor, all DA calls, events; o_res 3 = loop dead, else 0 *)
-Record tcase := { tc_cfg : cfg; tc_da : list hpost; tc_segs : list tseg }.
+Record tcase := { tc_cfg : cfg; tc_scheme : scheme; tc_da : list xhpost; tc_segs : list tseg }.
 
 Definition n_getids (r : iter_rec) : nat :=
   length (filter (fun cl => match cl with CGetIDs _ => true | _ => false end) (i_calls r)).
@@ -193,7 +202,8 @@ Fixpoint run_segs (i : N) (c : cfg) (pda : list hpost) (ls : lstate) (segs : lis
   end.
 
 Definition check_tcase (t : tcase) : list N :=
-  run_segs 0 (tc_cfg t) (tc_da t) (linit (tc_cfg t) (da_of DCopyAll (tc_da t)) false) (tc_segs t).
+  let pda := pda_of VConfigured (tc_scheme t) (tc_da t) in
+  run_segs 0 (tc_cfg t) pda (linit (tc_cfg t) (da_of DCopyAll pda) false) (tc_segs t).
 
 Fixpoint tmismatches_from (i : N) (cs : list tcase) : list (N * list N) :=
   match cs with
@@ -205,6 +215,6 @@ Fixpoint tmismatches_from (i : N) (cs : list tcase) : list (N * list N) :=
   end.
 
 (* compact constructors for the generated tick cases *)
-Definition HE : hpost := HI [] [OOk].                              (* an empty height, served at once *)
+Definition HE : xhpost := HI [] [OOk].                              (* an empty height, served at once *)
 Definition SN (n : nat) : list (bool * bool) := repeat (false, false) n.   (* n calls: nothing in retrieveCh, no tick *)
 Definition GI (h : N) (n : nat) : list call := map (fun i => CGetIDs (h + N.of_nat i)) (seq 0 n).   (* GetIDs h .. h+n-1 *)
